@@ -939,6 +939,12 @@ class _MissingImportFinder:
             isinstance(node.name, str), node.name
             return self._visit_Store(node.name)
 
+    def visit_NamedExpr(self, node:ast.NamedExpr):
+        # ``(x := value)`` evaluates the value before it binds the target
+        # (see the comment in visit_Assign).
+        self.visit(node.value)
+        self.visit(node.target)
+
     def visit_Call(self, node:ast.Call):
         logger.debug("visit_Call(%r)", node)
         return self.generic_visit(node)
